@@ -11,8 +11,9 @@
 
    The node is abstracted to what the handlers read:
      - routing table: peers with their Kademlia identifier (sha256, supplied by the
-       harness); RoutingTable.NearestPeers(k, n) is *specified* as the n members
-       nearest to k in the XOR metric (go-libp2p-kbucket, modelled not verified)
+       harness, which passes its leading 60 bits); RoutingTable.NearestPeers(k, n) is
+       *specified* as the n members nearest to k in the XOR metric (go-libp2p-kbucket,
+       modelled not verified)
      - peerstore: id -> addresses in the order the peerstore returns them
      - connectedness, address filter (a predicate per address)
      - value store / provider store: the outcome of the one call a handler makes for
